@@ -270,9 +270,64 @@ func typeArgString(t types.Type) string {
 		return fmt.Sprintf("%s %s", s, elemStr)
 	default:
 		// Fallback for rare type arguments (e.g. signature/interface/struct).
-		// Collisions are mainly caused by local named types, handled above.
-		return types.TypeString(t, PathOf)
+		// types.TypeString prints a function-local named type without its
+		// scope, so the scope indices of the local types that occur inside
+		// the composite are appended: struct{V local} over two different
+		// local types must not name the same instance.
+		return types.TypeString(t, PathOf) + localScopeIndices(t)
 	}
+}
+
+// localScopeIndices returns the concatenated scope indices of the function-local
+// named types that occur in t, in the order of their occurrence ("" if none).
+func localScopeIndices(t types.Type) string {
+	var sb strings.Builder
+	var walk func(t types.Type, depth int)
+	tuple := func(tp *types.Tuple, depth int) {
+		for i := 0; i < tp.Len(); i++ {
+			walk(tp.At(i).Type(), depth)
+		}
+	}
+	walk = func(t types.Type, depth int) {
+		if depth > 32 {
+			return
+		}
+		switch t := t.(type) {
+		case *types.Alias:
+			walk(types.Unalias(t), depth+1)
+		case *types.Named:
+			sb.WriteString(scopeIndices(t.Obj()))
+			if targs := t.TypeArgs(); targs != nil {
+				for i := 0; i < targs.Len(); i++ {
+					walk(targs.At(i), depth+1)
+				}
+			}
+		case *types.Pointer:
+			walk(t.Elem(), depth+1)
+		case *types.Slice:
+			walk(t.Elem(), depth+1)
+		case *types.Array:
+			walk(t.Elem(), depth+1)
+		case *types.Chan:
+			walk(t.Elem(), depth+1)
+		case *types.Map:
+			walk(t.Key(), depth+1)
+			walk(t.Elem(), depth+1)
+		case *types.Struct:
+			for i := 0; i < t.NumFields(); i++ {
+				walk(t.Field(i).Type(), depth+1)
+			}
+		case *types.Signature:
+			tuple(t.Params(), depth+1)
+			tuple(t.Results(), depth+1)
+		case *types.Interface:
+			for i := 0; i < t.NumMethods(); i++ {
+				walk(t.Method(i).Type(), depth+1)
+			}
+		}
+	}
+	walk(t, 0)
+	return sb.String()
 }
 
 const (
